@@ -72,6 +72,11 @@ def build_table(path, dmax, nmin, nmax, nticks):
     return total
 
 
+# "nice" decimal (dt, target) pairs: the quotients 0.03 / 0.01, 0.475 / 0.025 ... fall one ulp beside the whole number in binary64
+NICE_PAIRS = [(0.01, 0.03), (0.005, 0.015), (0.005, 0.03), (0.01, 0.06), (0.02, 0.06), (0.01, 0.12), (0.01, 0.21), (0.01, 0.24),
+              (0.025, 0.475), (0.05, 0.95), (0.01, 0.07), (0.1, 0.3), (0.01, 0.49), (0.002, 0.006), (0.004, 0.012), (0.01, 0.29)]
+
+
 def build_traces(path, tier, seed):
     import eqsig
     from eqsig.fns import time_step as tp
@@ -87,8 +92,12 @@ def build_traces(path, tier, seed):
             target = dt
         elif mode == 1:
             target = dt * float(rng.integers(2, 9))            # commensurate, decimate
+            if i // 5 < len(NICE_PAIRS):
+                dt, target = NICE_PAIRS[i // 5]                # decimal pairs whose quotient is one ulp off a whole number: every run
         elif mode == 2:
             target = dt / float(rng.integers(2, 9))            # commensurate, refine
+            if i // 5 < len(NICE_PAIRS):
+                target, dt = NICE_PAIRS[i // 5]
         elif mode == 3 and i % 10 == 3:
             target = dt * (1.0 + float(rng.choice([5e-6, -5e-6, 1e-9, -1e-9, 1e-13, 3e-4, -3e-4])))   # almost, but not, equal steps
         else:
